@@ -189,6 +189,26 @@ def real_C09(ctx, pexpect, thorough):
         if bad:
             ctx.hit('C09/popen', 'PopenSpawn child (%s %d): %s' % (kind, val, bad), {'kind': kind, 'value': val, 'snapshots': repr(snaps)})
             return
+    # PopenSpawn: the child has died by itself, the application (not knowing) signals it, then waits: the status is still the real one
+    for kind, val in (('exit', 7), ('exit', 255), ('signal', 10)):
+        prog = 'import sys; sys.exit(%d)' % val if kind == 'exit' else 'import os,signal; signal.signal(%d, signal.SIG_DFL); os.kill(os.getpid(), %d)' % (val, val)
+        p = popen_spawn.PopenSpawn([sys.executable, '-c', prog], timeout=10)
+        time.sleep(0.6)
+        try:
+            p.kill(signal.SIGTERM)
+        except OSError:
+            pass
+        try:
+            w_ = p.wait()
+        except Exception as e:
+            ctx.hit('C09/popen', 'PopenSpawn child (%s %d) that had died by itself, then kill(SIGTERM), then wait(): raised %r' % (kind, val, e), {'kind': kind, 'value': val})
+            return
+        tried += 1
+        want = (val, None) if kind == 'exit' else (None, val)
+        if (p.exitstatus, p.signalstatus) != want or not p.terminated:
+            ctx.hit('C09/popen', 'PopenSpawn child (%s %d) that had died by itself, then kill(SIGTERM), then wait() -> %r: exitstatus=%r signalstatus=%r terminated=%r'
+                    % (kind, val, w_, p.exitstatus, p.signalstatus, p.terminated), {'kind': kind, 'value': val})
+            return
     # run(withexitstatus)
     out, st = pexpect.run(sys.executable + ' -c "import sys; print(1); sys.exit(42)"', withexitstatus=True)
     tried += 1
